@@ -319,6 +319,34 @@ def port_mod(b):
   })
 
 
+def _mk_port_mod_single_bit(i):
+  """the same statement for a port-mod whose mask is the single bit i (concrete mask: the per-bit step
+  _set_port_config_bit -> ofp_phy_port.set_config stays within linear arithmetic whatever its body does with the bit)"""
+  def u(b):
+    sw, con, pv = switch(b, 1)
+    hw = pv[0]["hw"]
+    cfg, cfgbits = b.bits("pm.config", 7)
+    m, xid = request(b, of.ofp_port_mod, port_no=1, hw_addr=b.new(EthAddr, hw), config=cfg, mask=1 << i, advertise=0)
+    old = pv[0]["cbits"]
+    b.assume(pv[0]["sbits"][0] == old[0])
+    def cfgbit(j):
+      return (pv[0]["obj"].config >> j) % 2
+    return Case(SoftwareSwitchBase._rx_port_mod, [sw, m, con], calls=con_calls(b), ensures={
+      "the_masked_bit_takes_the_new_value_others_keep_theirs":
+        lambda res: all([cfgbit(j) == (cfgbits[j] if (j == i and i != 1) else old[j]) for j in range(7)]),
+      "link_state_follows_port_down": lambda res: i != 0 or (pv[0]["obj"].state % 2) == cfgbits[0],
+      "a_port_status_only_on_a_link_state_change":
+        lambda res: [type(x) for x in sent(b)] == ([of.ofp_port_status] if (i == 0 and cfgbits[0] != pv[0]["sbits"][0]) else []),
+    })
+  u.__name__ = "port_mod_of_config_bit_%d" % i
+  return u
+
+
+PORT_MOD_BIT_UNITS = [_mk_port_mod_single_bit(_i) for _i in range(7)]
+for _u in PORT_MOD_BIT_UNITS:
+  unit(P, target=SW + "SoftwareSwitchBase._rx_port_mod / _set_port_config_bit, ofp_phy_port.set_config")(_u)
+
+
 # ---------------------------------------------------------------- dispatch
 
 @unit(P, target=SW + "SoftwareSwitchBase.rx_message")
@@ -359,4 +387,48 @@ def aggregate_and_flow_stats_on_an_empty_table(b):
       lambda res: (not which) or (len(sent(b)[0].pack()) == 12 + 24),
     "flow_reply_for_an_empty_table_is_empty": lambda res: which or len(sent(b)[0].pack()) == 12,
     "reply_encodes": lambda res: encodes(b),
+  })
+
+
+# ---------------------------------------------------------------- emergency flow-mods: the specified error codes
+
+@unit(P, target=SW + "SoftwareSwitchBase._flow_mod_add (emergency flows)")
+def emergency_flow_mods_are_refused_with_the_specified_code(b):
+  """OFPFF_EMERG entries: non-zero idle OR hard timeout -> BAD_EMERG_TIMEOUT; otherwise with SEND_FLOW_REM -> EPERM;
+  otherwise ALL_TABLES_FULL (this switch has no emergency table); never silence, never an installed entry"""
+  sw, con, _ = switch(b, 0)
+  idle = b.int("idle_timeout", 0, 65535)
+  hard = b.int("hard_timeout", 0, 65535)
+  flags, fbits = b.bits("flags", 3)
+  b.assume(fbits[2] == 1)                      # OFPFF_EMERG
+  m, xid = request(b, of.ofp_flow_mod, idle_timeout=idle, hard_timeout=hard, flags=flags)
+  table = b.get(sw, "table") if b.mode == "sym" else sw.table
+  def run(sw, m, con, table):
+    n0 = len(table)
+    sw._flow_mod_add(m, con, table)
+    return len(table) - n0
+  code = lambda: of.OFPFMFC_BAD_EMERG_TIMEOUT if (idle != 0 or hard != 0) else (
+    of.OFPFMFC_EPERM if fbits[0] == 1 else of.OFPFMFC_ALL_TABLES_FULL)
+  return Case(run, [sw, m, con, table], calls=con_calls(b), ensures={
+    "one_error_with_the_specified_code": lambda res: is_error(b, xid, of.OFPET_FLOW_MOD_FAILED, code(), m),
+    "nothing_is_installed": lambda res: res == 0,
+    "reply_encodes": lambda res: encodes(b),
+  })
+
+
+# ---------------------------------------------------------------- the xid an error reply carries
+
+from pox.datapaths.switch import OFConnection
+
+
+@unit(P, target=SW + "OFConnection._extract_message_xid")
+def error_replies_carry_the_offending_messages_xid(b):
+  """errors for messages that could not be decoded copy the xid from the raw bytes: bytes 4..7 whenever the buffer
+  holds a whole header (8 bytes or more, exactly 8 included), 0 when the header is incomplete"""
+  raw = b.bytes("message", None, 0, 64)
+  n = len(raw) if b.mode == "conc" else raw.length()
+  oc = b.raw_new(OFConnection)
+  return Case(OFConnection._extract_message_xid, [oc, raw], raises={}, ensures={
+    "xid_of_a_complete_header": lambda res: n < 8 or res == ((raw[4] * 256 + raw[5]) * 256 + raw[6]) * 256 + raw[7],
+    "zero_when_the_header_is_incomplete": lambda res: n >= 8 or res == 0,
   })
